@@ -1,0 +1,177 @@
+//go:build verif
+
+/*
+ * Verification hooks (build tag `verif`). Nothing here is compiled into a normal build.
+ * The hooks only observe state or inject test doubles; they do not change behaviour.
+ */
+
+package manager
+
+import (
+	"sort"
+	"sync/atomic"
+	"time"
+
+	v3core "github.com/envoyproxy/go-control-plane/envoy/config/core/v3"
+
+	"github.com/kitex-contrib/xds/core/xdsresource"
+)
+
+// VerifManager is the exported view of the resource manager used by the verification harness.
+type VerifManager = xdsResourceManager
+
+// NewXDSResourceManagerWithADS is NewXDSResourceManager with the ADS client injected.
+func NewXDSResourceManagerWithADS(bootstrapConfig *BootstrapConfig, ac ADSClient, opts ...Option) (*xdsResourceManager, error) {
+	m := &xdsResourceManager{
+		cache:       map[xdsresource.ResourceType]map[string]xdsresource.Resource{},
+		meta:        make(map[xdsresource.ResourceType]map[string]*xdsresource.ResourceMeta),
+		notifierMap: make(map[xdsresource.ResourceType]map[string]*notifier),
+		opts:        NewOptions(opts),
+		closeCh:     make(chan struct{}),
+		xdsHandlers: make(map[xdsresource.ResourceType][]xdsresource.XDSUpdateHandler),
+	}
+	cli, err := newXdsClient(bootstrapConfig, ac, m)
+	if err != nil {
+		return nil, err
+	}
+	m.client = cli
+	go m.cleaner()
+	return m, nil
+}
+
+// NewBootstrapConfigForVerif builds a BootstrapConfig from explicit values.
+func NewBootstrapConfigForVerif(namespace, domain string, node *v3core.Node, cfg *XDSServerConfig) *BootstrapConfig {
+	return &BootstrapConfig{configNamespace: namespace, nodeDomain: domain, node: node, xdsSvrCfg: cfg}
+}
+
+// NewBootstrapConfigFromEnv exposes newBootstrapConfig.
+func NewBootstrapConfigFromEnv(cfg *XDSServerConfig) (*BootstrapConfig, error) {
+	return newBootstrapConfig(cfg)
+}
+
+func (bc *BootstrapConfig) VerifNode() *v3core.Node     { return bc.node }
+func (bc *BootstrapConfig) VerifNamespace() string      { return bc.configNamespace }
+func (bc *BootstrapConfig) VerifDomain() string         { return bc.nodeDomain }
+func (bc *BootstrapConfig) VerifExpand(h string) string { return bc.tryExpandFQDN(h) }
+
+// VerifParseMetaEnvs exposes parseMetaEnvs.
+var VerifParseMetaEnvs = parseMetaEnvs
+
+// VerifNodeID exposes nodeId.
+var VerifNodeID = nodeId
+
+// VerifSnapshot returns a copy of the cache (type -> name -> resource) and, per entry,
+// whether a last-access time has been recorded.
+func (m *xdsResourceManager) VerifSnapshot() (map[xdsresource.ResourceType]map[string]xdsresource.Resource, map[xdsresource.ResourceType]map[string]bool) {
+	m.mu.RLock()
+	defer m.mu.RUnlock()
+	c := make(map[xdsresource.ResourceType]map[string]xdsresource.Resource)
+	for rt, rs := range m.cache {
+		c[rt] = make(map[string]xdsresource.Resource, len(rs))
+		for n, r := range rs {
+			c[rt][n] = r
+		}
+	}
+	a := make(map[xdsresource.ResourceType]map[string]bool)
+	for rt, ms := range m.meta {
+		a[rt] = make(map[string]bool, len(ms))
+		for n, mt := range ms {
+			_, ok := mt.LastAccessTime.Load().(time.Time)
+			a[rt][n] = ok
+		}
+	}
+	return c, a
+}
+
+// VerifPending returns the names that currently have a notifier registered.
+func (m *xdsResourceManager) VerifPending() map[xdsresource.ResourceType][]string {
+	m.mu.RLock()
+	defer m.mu.RUnlock()
+	out := make(map[xdsresource.ResourceType][]string)
+	for rt, ns := range m.notifierMap {
+		for n := range ns {
+			out[rt] = append(out[rt], n)
+		}
+		sort.Strings(out[rt])
+	}
+	return out
+}
+
+// VerifInterest returns the client's interest set (type -> sorted names); a type that was
+// never watched is absent.
+func (m *xdsResourceManager) VerifInterest() map[xdsresource.ResourceType][]string {
+	c := m.client
+	c.mu.RLock()
+	defer c.mu.RUnlock()
+	out := make(map[xdsresource.ResourceType][]string)
+	for rt, ns := range c.watchedResource {
+		l := make([]string, 0, len(ns))
+		for n := range ns {
+			l = append(l, n)
+		}
+		sort.Strings(l)
+		out[rt] = l
+	}
+	return out
+}
+
+// VerifVersionNonce returns the acknowledged version and last nonce of a type.
+func (m *xdsResourceManager) VerifVersionNonce(rt xdsresource.ResourceType) (string, string) {
+	return m.client.version(rt), m.client.nonce(rt)
+}
+
+// VerifNameTable returns a copy of the NDS lookup table.
+func (m *xdsResourceManager) VerifNameTable() map[string][]string {
+	r := m.client.cipResolver
+	r.mu.Lock()
+	defer r.mu.Unlock()
+	out := make(map[string][]string, len(r.lookupTable))
+	for k, v := range r.lookupTable {
+		out[k] = append([]string(nil), v...)
+	}
+	return out
+}
+
+// VerifQueueLen returns the number of requests waiting in the request channel.
+func (m *xdsResourceManager) VerifQueueLen() int { return len(m.client.reqCh) }
+
+// VerifBackdate moves the last access time of a cached resource d into the past (only if one is recorded).
+func (m *xdsResourceManager) VerifBackdate(rt xdsresource.ResourceType, name string, d time.Duration) bool {
+	m.mu.RLock()
+	defer m.mu.RUnlock()
+	if ms, ok := m.meta[rt]; ok {
+		if mt, ok := ms[name]; ok {
+			if t, ok := mt.LastAccessTime.Load().(time.Time); ok {
+				mt.LastAccessTime.Store(t.Add(-d))
+				return true
+			}
+		}
+	}
+	return false
+}
+
+// VerifResolveAddr / VerifListenerName expose the client's name binding.
+func (m *xdsResourceManager) VerifResolveAddr(host string) string { return m.client.resolveAddr(host) }
+func (m *xdsResourceManager) VerifListenerName(n string) (string, error) {
+	return m.client.getListenerName(n)
+}
+
+// VerifWatch calls the client's Watch directly (used to drive subscription changes).
+func (m *xdsResourceManager) VerifWatch(rt xdsresource.ResourceType, name string, remove bool) {
+	m.client.Watch(rt, name, remove)
+}
+
+// VerifYieldFn, when set, is called at the yield points of Get:
+// 1 after the first cache miss, 2 before the select, 3 after the notifier arm fired,
+// 4 after the deadline arm fired.
+var verifYieldFn atomic.Value // func(point int, rt xdsresource.ResourceType, name string)
+
+func SetVerifYield(f func(point int, rt xdsresource.ResourceType, name string)) {
+	verifYieldFn.Store(f)
+}
+
+func verifYield(point int, rt xdsresource.ResourceType, name string) {
+	if f, ok := verifYieldFn.Load().(func(int, xdsresource.ResourceType, string)); ok && f != nil {
+		f(point, rt, name)
+	}
+}
